@@ -37,3 +37,5 @@ def check(v, tier, opts):
                      "by CBMC: values are small integers, comparisons only)")
     kani_engine.decide(v, "C13", tier, opts)
     return v.finish(RULE)
+
+READY = True
